@@ -332,9 +332,14 @@ def process_state(ctx):
                 bad.append((f'{kind} {text} (module attribute)', line))
         for d in list(f.node.args.defaults) + [
                 x for x in f.node.args.kw_defaults if x is not None]:
-            if isinstance(d, (ast.List, ast.Dict, ast.Set)) or (
-                    isinstance(d, ast.Call) and dotted(d.func) in (
-                        'list', 'dict', 'set', 'defaultdict')):
+            # a default is evaluated once, at import: an object built by a
+            # call there is shared by every later call of the function
+            # (harmless only for immutable values)
+            if isinstance(d, (ast.List, ast.Dict, ast.Set, ast.ListComp,
+                              ast.DictComp, ast.SetComp)) or (
+                    isinstance(d, ast.Call) and dotted(d.func) not in (
+                        'tuple', 'frozenset', 'int', 'float', 'str', 'bool',
+                        'bytes', 'object', 'property')):
                 bad.append((f'mutable default {unparse(d)}', d.lineno))
         ctx.instance(rule, construct, nontrivial=True,
                      sample={'writes': bad} if bad else None)
@@ -513,6 +518,12 @@ def shared_class_state(ctx):
                         f'compilation/run in the process', f.file, line)
 
 
+STR_METHODS = {'lower', 'upper', 'strip', 'lstrip', 'rstrip', 'split',
+               'startswith', 'endswith', 'replace', 'join', 'encode',
+               'decode', 'format', 'isalpha', 'isdigit', 'isnumeric',
+               'find', 'index', 'count', 'title', 'capitalize'}
+
+
 def _memo_numeric(fnode):
     memo = None
     for d in getattr(fnode, 'decorator_list', []):
@@ -545,6 +556,12 @@ def _memo_numeric(fnode):
         for nm in names:
             if isinstance(nm, ast.Name) and nm.id in params:
                 numeric.add(nm.id)
+        # a parameter whose attributes are read is an object: two objects
+        # that compare equal (by a user-defined __eq__/__hash__, which may
+        # ignore fields the function reads) share one cache entry
+        if isinstance(x, ast.Attribute) and isinstance(x.value, ast.Name) \
+                and x.value.id in params and x.attr not in STR_METHODS:
+            numeric.add(x.value.id)
     return memo, numeric
 
 
@@ -588,10 +605,12 @@ def memoised_functions(ctx):
         if numeric:
             ctx.finding(rule, construct,
                         f'{f.qualname} is memoised ({memo}) and its '
-                        f'parameter(s) {sorted(numeric)} are numbers: keys '
-                        f'that compare equal but differ (0.0 and -0.0; 1, '
-                        f'1.0 and True) share one cache entry, so the result '
-                        f'depends on what the process computed before',
+                        f'parameter(s) {sorted(numeric)} are numbers or '
+                        f'objects: keys that compare equal but differ (0.0 '
+                        f'and -0.0; 1, 1.0 and True; objects whose __eq__ '
+                        f'ignores a field the function reads) share one '
+                        f'cache entry, so the result depends on what the '
+                        f'process computed before',
                         f.file, f.line)
     ctx.floor('functions examined for memoisation', n, 400)
     # the expected count on a clean tree is zero: keep the detector honest
